@@ -405,7 +405,188 @@ func extractRest14(l *loaded, genDir, jsonDir string) error {
 		}
 	}
 	sort.Strings(rangeAddr)
-	if err := writeJSON(jsonDir+"/structure.json", map[string]any{"parser_loops": loops, "pool_puts": pools, "children_range_addr": rangeAddr}); err != nil {
+
+	// 4. recovery's test for a statement-starting keyword: the token types its switch on the current token's type lists,
+	// and everything else the function reads or calls (a reading of the token's text, a table lookup, a call)
+	var startTypes, startOther []string
+	for _, f := range pp.Syntax {
+		for _, d := range f.Decls {
+			fd, ok := d.(*ast.FuncDecl)
+			if !ok || fd.Body == nil || fd.Name.Name != "isStatementStartingKeyword" {
+				continue
+			}
+			inCase := map[ast.Node]bool{}
+			ast.Inspect(fd.Body, func(n ast.Node) bool {
+				sw, ok := n.(*ast.SwitchStmt)
+				if !ok || sw.Tag == nil || src(sw.Tag) != "p.currentToken.Type" {
+					return true
+				}
+				for _, cl := range sw.Body.List {
+					cc := cl.(*ast.CaseClause)
+					for _, e := range cc.List {
+						inCase[e] = true
+						if sel, ok := e.(*ast.SelectorExpr); ok && strings.HasPrefix(sel.Sel.Name, "TokenType") {
+							startTypes = append(startTypes, strings.TrimPrefix(sel.Sel.Name, "TokenType"))
+						} else {
+							startOther = append(startOther, "case:"+src(e))
+						}
+					}
+					for _, st := range cc.Body {
+						if r, ok := st.(*ast.ReturnStmt); !ok || len(r.Results) != 1 || src(r.Results[0]) != "true" {
+							startOther = append(startOther, "case-body:"+nodeText(l.fset, st))
+						}
+					}
+					if cc.List == nil {
+						startOther = append(startOther, "default-clause")
+					}
+				}
+				return true
+			})
+			ast.Inspect(fd.Body, func(n ast.Node) bool {
+				switch x := n.(type) {
+				case *ast.SelectorExpr:
+					if src(x.X) == "p.currentToken" && x.Sel.Name != "Type" {
+						startOther = append(startOther, "reads:"+x.Sel.Name)
+					}
+				case *ast.CallExpr:
+					startOther = append(startOther, "calls:"+src(x.Fun))
+				case *ast.IndexExpr:
+					startOther = append(startOther, "looks-up:"+src(x.X))
+				case *ast.ReturnStmt:
+					if len(x.Results) == 1 && src(x.Results[0]) != "true" && src(x.Results[0]) != "false" {
+						startOther = append(startOther, "returns:"+src(x.Results[0]))
+					}
+				}
+				return true
+			})
+		}
+	}
+	sort.Strings(startTypes)
+	sort.Strings(startOther)
+
+	// 5. how each exported function that takes a context begins: with a poll of the context that returns its error
+	// ("poll-first"), by handing the context on without looping itself ("delegates"), or otherwise
+	type ctxEntry struct {
+		Fn   string `json:"fn"`
+		Kind string `json:"kind"`
+	}
+	var ctxEntries []ctxEntry
+	for _, pkgName := range []string{"pkg/sql/tokenizer", "pkg/sql/parser", "pkg/gosqlx"} {
+		pk := l.pkgs[pkgName]
+		if pk == nil {
+			continue
+		}
+		for _, f := range pk.Syntax {
+			if strings.HasSuffix(l.fset.Position(f.Pos()).Filename, "_test.go") {
+				continue
+			}
+			for _, d := range f.Decls {
+				fd, ok := d.(*ast.FuncDecl)
+				if !ok || fd.Body == nil || !fd.Name.IsExported() {
+					continue
+				}
+				ctxName := ""
+				for _, prm := range fd.Type.Params.List {
+					if src(prm.Type) == "context.Context" && len(prm.Names) == 1 {
+						ctxName = prm.Names[0].Name
+					}
+				}
+				if ctxName == "" {
+					continue
+				}
+				name := fd.Name.Name
+				if fd.Recv != nil && len(fd.Recv.List) > 0 {
+					name = strings.TrimPrefix(src(fd.Recv.List[0].Type), "*") + "." + name
+				}
+				kind := "other"
+				if len(fd.Body.List) > 0 {
+					if is, ok := fd.Body.List[0].(*ast.IfStmt); ok && is.Init != nil && strings.Contains(src(is.Init), ctxName+".Err()") && leaves(is.Body) {
+						kind = "poll-first"
+					}
+				}
+				if kind == "other" {
+					loops, hands := false, false
+					ast.Inspect(fd.Body, func(n ast.Node) bool {
+						switch x := n.(type) {
+						case *ast.ForStmt, *ast.RangeStmt:
+							loops = true
+						case *ast.CallExpr:
+							for _, a := range x.Args {
+								if id, ok := a.(*ast.Ident); ok && id.Name == ctxName {
+									hands = true
+								}
+							}
+						}
+						return true
+					})
+					if hands && !loops {
+						kind = "delegates"
+					}
+				}
+				ctxEntries = append(ctxEntries, ctxEntry{strings.TrimPrefix(pkgName, "pkg/") + ":" + name, kind})
+			}
+		}
+	}
+	sort.Slice(ctxEntries, func(i, j int) bool { return ctxEntries[i].Fn < ctxEntries[j].Fn })
+
+	// 6. the size every tokenizer run reports to the metrics: the second argument of each metrics.RecordTokenization
+	// call, and whether it is the length of the function's own byte-slice parameter
+	type sizeArg struct {
+		Fn    string `json:"fn"`
+		Arg   string `json:"arg"`
+		Param bool   `json:"is_len_of_parameter"`
+	}
+	var sizeArgs []sizeArg
+	if tkp := l.pkgs["pkg/sql/tokenizer"]; tkp != nil {
+		for _, f := range tkp.Syntax {
+			if strings.HasSuffix(l.fset.Position(f.Pos()).Filename, "_test.go") {
+				continue
+			}
+			for _, d := range f.Decls {
+				fd, ok := d.(*ast.FuncDecl)
+				if !ok || fd.Body == nil {
+					continue
+				}
+				params := map[string]bool{}
+				for _, prm := range fd.Type.Params.List {
+					if src(prm.Type) == "[]byte" {
+						for _, nm := range prm.Names {
+							params[nm.Name] = true
+						}
+					}
+				}
+				// a parameter that is assigned to in the body no longer is the argument
+				ast.Inspect(fd.Body, func(n ast.Node) bool {
+					if as, ok := n.(*ast.AssignStmt); ok {
+						for _, lhs := range as.Lhs {
+							if id, ok := lhs.(*ast.Ident); ok && as.Tok != token.DEFINE {
+								delete(params, id.Name)
+							}
+						}
+					}
+					return true
+				})
+				ast.Inspect(fd.Body, func(n ast.Node) bool {
+					call, ok := n.(*ast.CallExpr)
+					if !ok || !strings.HasSuffix(src(call.Fun), "RecordTokenization") || len(call.Args) != 3 {
+						return true
+					}
+					arg := src(call.Args[1])
+					isParam := false
+					if lc, ok := call.Args[1].(*ast.CallExpr); ok && src(lc.Fun) == "len" && len(lc.Args) == 1 {
+						if id, ok := lc.Args[0].(*ast.Ident); ok && params[id.Name] {
+							isParam = true
+						}
+					}
+					sizeArgs = append(sizeArgs, sizeArg{fd.Name.Name, arg, isParam})
+					return true
+				})
+			}
+		}
+	}
+	sort.Slice(sizeArgs, func(i, j int) bool { return sizeArgs[i].Fn+sizeArgs[i].Arg < sizeArgs[j].Fn+sizeArgs[j].Arg })
+	if err := writeJSON(jsonDir+"/structure.json", map[string]any{"parser_loops": loops, "pool_puts": pools, "children_range_addr": rangeAddr,
+		"recovery_start_types": startTypes, "recovery_start_other": startOther, "ctx_entries": ctxEntries, "metrics_size_args": sizeArgs}); err != nil {
 		return err
 	}
 	var b strings.Builder
@@ -430,6 +611,34 @@ func extractRest14(l *loaded, genDir, jsonDir string) error {
 			b.WriteString(", ")
 		}
 		b.WriteString(leanStr(e))
+	}
+	b.WriteString("]\n\n/-- token types listed by recovery's isStatementStartingKeyword (switch on the current token's type) -/\ndef recoveryStartTypes : List String := [")
+	for i, e := range startTypes {
+		if i > 0 {
+			b.WriteString(", ")
+		}
+		b.WriteString(leanStr(e))
+	}
+	b.WriteString("]\n\n/-- whatever else that function reads, calls, looks up or returns -/\ndef recoveryStartOther : List String := [")
+	for i, e := range startOther {
+		if i > 0 {
+			b.WriteString(", ")
+		}
+		b.WriteString(leanStr(e))
+	}
+	b.WriteString("]\n\n/-- how each exported function taking a context begins: (function, poll-first | delegates | other) -/\ndef ctxEntries : List (String × String) := [")
+	for i, e := range ctxEntries {
+		if i > 0 {
+			b.WriteString(", ")
+		}
+		fmt.Fprintf(&b, "(%s, %s)", leanStr(e.Fn), leanStr(e.Kind))
+	}
+	b.WriteString("]\n\n/-- the size argument of every metrics.RecordTokenization call of the tokenizer: (function, argument, is the length of the function's own byte-slice parameter) -/\ndef metricsSizeArgs : List (String × String × Bool) := [")
+	for i, e := range sizeArgs {
+		if i > 0 {
+			b.WriteString(", ")
+		}
+		fmt.Fprintf(&b, "(%s, %s, %v)", leanStr(e.Fn), leanStr(e.Arg), e.Param)
 	}
 	b.WriteString("]\n\nend GoSQLXModel.Gen.Structure\n")
 	_, err := writeIfChanged(filepath.Join(genDir, "Structure.lean"), []byte(b.String()))
